@@ -6,3 +6,5 @@ import GstVerif.Poly.Model
 import GstVerif.Poly.Driver
 import GstVerif.Db.Model
 import GstVerif.Db.Driver
+import GstVerif.LinAlg.Mat
+import GstVerif.LinAlg.Driver
